@@ -40,6 +40,18 @@ def B(x):
     return list(x)
 
 
+def Bp(x):
+    """object paths can be arbitrarily long: a very long one is recorded as its first 64 bytes, '#', CRC and length (still a
+    byte sequence, and still what prefix comparisons of match rules with ordinary values need)"""
+    b = B(x)
+    if len(b) <= 1024:
+        return b
+    import zlib
+    c = zlib.crc32(bytes(b))
+    n = len(b)
+    return b[:64] + [35] + [(c >> s) & 255 for s in (0, 8, 16, 24)] + [(n >> s) & 255 for s in (0, 8, 16, 24)]
+
+
 def norm_val(sig, v):
     c = sig[0]
     if c in 'sog':
@@ -79,7 +91,7 @@ def _norm_msg(m, fdtokens=()):
     f = m.fields
     known = set(range(1, 11))
     return {'ty': m.type, 'snd': B(f.get(F_SENDER)), 'dst': B(f.get(F_DESTINATION)), 'ser': m.serial,
-            'rs': f.get(F_REPLY_SERIAL, 0), 'path': B(f.get(F_PATH)), 'ifc': B(f.get(F_INTERFACE)),
+            'rs': f.get(F_REPLY_SERIAL, 0), 'path': Bp(f.get(F_PATH)), 'ifc': B(f.get(F_INTERFACE)),
             'mem': B(f.get(F_MEMBER)), 'err': B(f.get(F_ERROR_NAME)), 'sig': B(m.sig),
             'args': norm_args(m.sig, m.body), 'fl': m.flags, 'nfd': f.get(F_UNIX_FDS, 0),
             'unk': sorted(c for c, _s, _v in m.raw_fields if c not in known),
@@ -343,7 +355,7 @@ class Driver:
                 os.close(x)
             st.joined = []
         return {'k': 'send', 'ser': ser, 'fl': fl, 'ty': ty, 'att': toks, 'dst': B(_txt(op.get('dst'))), 'rs': op.get('rs', 0),
-                'path': B(_txt(op.get('path'))), 'ifc': B(_txt(op.get('ifc'))), 'mem': B(_txt(op.get('mem'))),
+                'path': Bp(_txt(op.get('path'))), 'ifc': B(_txt(op.get('ifc'))), 'mem': B(_txt(op.get('mem'))),
                 'err': B(_txt(op.get('err'))), 'sig': B(sig), 'args': norm_args(sig, body), 'nfd': nfd,
                 'forged': bool(forge), 'fsnd': B(forge.get('sender')), '_': '%s %s %s.%s' % (ty, op.get('dst'), op.get('ifc'), op.get('mem'))}
 
